@@ -603,6 +603,11 @@ theorem table_long_escapes :
       longEncode ['\n', c, 'x'] == '\n' :: (alookupS c Tables.longEscapes).getD [c] ++ ['x']) = true := by
   decide +kernel
 
+/-- … and on long-quoted texts ending in runs of quotes / backslashes (the final-quote rule) -/
+theorem table_long_tails :
+    Tables.longTails.all (fun p => longEncode p.1 == p.2) = true := by
+  decide +kernel
+
 /-- the characters `URIRef.n3` refuses include what the reader relies on -/
 theorem table_invalid_chars :
     '"' ∈ Tables.invalidUriChars ∧ '^' ∈ Tables.invalidUriChars ∧ '\\' ∈ Tables.invalidUriChars ∧
